@@ -98,7 +98,12 @@ class BlockWriteHandler(AbstractWriteHandler):
 
         previous_vertex = None
         is_first_vertex = True
+        written_vertices: set[int] = set()
         while self._next_vertex is not None:
+            if self._next_vertex.index in written_vertices:
+                # We are going in circles, the loop was not recognized by the structuring passes.
+                raise ValueError("A block contains a loop that was not structured.")
+            written_vertices.add(self._next_vertex.index)
             # Write
             self.last_handler_in_block = WriteHandlerManager.get_for(
                 self._next_vertex, self.decompiler, self, self.vertex_that_started_block, is_first_vertex
